@@ -32,3 +32,28 @@ package vgirpc
 //@ lemma date32RoundTrip [C08]: forall ns int :: dayOf(dayOf(ns) * 86400000000000) == dayOf(ns) &&
 //@   dayOf(ns) * 86400000000000 <= ns && ns < (dayOf(ns) + 1) * 86400000000000
 //@ lemma timestampMicroRoundTrip [C08]: forall ns int :: ((ns / 1000) * 1000) / 1000 == ns / 1000 && ns - 1000 < (ns / 1000) * 1000 && (ns / 1000) * 1000 <= ns
+
+// ---- collection decoders (C08): index alignment between Arrow child arrays and Go slots ----
+// Element j of list/map row idx lives at absolute child index start+j: its null flag and its
+// value are read at that same index and stored into Go slot j; a struct's children are read at
+// the struct's own row index.
+//
+//@ func setListField
+//@   property C08
+//@   at call arrow.Array.IsNull assert [nullidx] arg1 == start + j && arg0 == values && 0 <= j && j < length
+//@   at call setFieldFromArrow assert [validx] arg3 == start + j && arg2 == values && 0 <= j && j < length
+//@   at call (reflect.Value).Index assert [slot] arg1 == j
+//@   at call reflect.MakeSlice assert [len] arg1 == length && arg2 == length && length == end - start
+//@   loop 0 invariant 0 <= j
+//
+//@ func setMapField
+//@   property C08
+//@   at call setFieldFromArrow#1 assert [keyidx] arg3 == start + j && arg2 == keys && 0 <= j && j < length
+//@   at call setFieldFromArrow#2 assert [validx] arg3 == start + j && arg2 == items && 0 <= j && j < length
+//@   loop 0 invariant 0 <= j
+//
+//@ func setStructField
+//@   property C08
+//@   requires 0 <= idx && idx < structLen(structArr)
+//@   at call arrow.Array.IsNull assert [nullidx] arg1 == idx && arg0 == childArr
+//@   at call setFieldFromArrow assert [validx] arg3 == idx && arg2 == childArr
